@@ -31,7 +31,8 @@ fn install_panic_hook() {
         };
         let loc = info.location().map(|l| format!(" at {}:{}", l.file(), l.line())).unwrap_or_default();
         LAST_PANIC.with(|p| *p.borrow_mut() = format!("{}{}", msg, loc));
-        if std::env::var("CORGISIM_SHOW_PANICS").is_ok() {
+        let in_harness = info.location().map(|l| l.file().starts_with("src/")).unwrap_or(true);
+        if std::env::var("CORGISIM_SHOW_PANICS").is_ok() || (in_harness && !msg.contains("corgi_verif: step budget")) {
             eprintln!("[panic] {}{}", msg, loc);
         }
     }));
